@@ -429,4 +429,9 @@ def writeNs (maxsize : Nat) (payload : Bytes) (st : SSt) : NsWRes × SSt :=
     | (.timeout, st') => (.timeout, st')
     | (_, st') => (.ok, st')
 
+/-- write_ns for each payload in turn (results dropped; the state is what matters) -/
+def writeMany (maxsize : Nat) : List Bytes → SSt → SSt
+  | [], st => st
+  | p :: ps, st => writeMany maxsize ps (writeNs maxsize p st).2
+
 end C12
